@@ -96,6 +96,19 @@ def reraised_ahead_of_catch_all(chk: Check, rule: str) -> None:
     chk.floor(f'{rule}:reraised-ahead', n_re, 1)
 
 
+def callback_failure_fails_process(chk: Check, rule: str) -> None:
+    """callback_excepted fails the process by calling fail() -- there and then, in the very callback in which it found the process alive (fail() is the guarded
+    event; a transition scheduled for later runs after whatever terminates the process in between).  Shared with C01."""
+    prog = chk.prog
+    ce_f = prog.func('processes.Process.callback_excepted')
+    fl = [c for c in calls_in_func(ce_f, 'fail')]
+    ok = len(fl) == 1 and [norm(a) for a in fl[0].args] == ce_f.params[2:4]
+    chk.ob(rule, ce_f, ok, 'callback_excepted fails the process with that exception', node=fl[0] if fl else None, kind='callback-fails')
+    deferred = [c for c in calls_in_func(ce_f) if last_name(c) in ('call_soon', 'call_later', 'call_soon_threadsafe', 'create_task', 'ensure_future')]
+    chk.ob(rule, ce_f, not deferred, 'nothing about the failure is put off to a later callback (the liveness test and the transition happen in one piece)',
+           node=deferred[0] if deferred else None, kind='callback-fails-at-once')
+
+
 def exception_in_flight_kept(chk: Check, rule: str) -> None:
     """"... with exactly that exception": a ``finally`` block runs on the exception edge too.  Where the protected body can run user code (a hook, a step, a callback),
     the block neither raises nor asserts nor returns: any of these REPLACES (or swallows) the user's exception in flight -- the process would end EXCEPTED with an
@@ -372,10 +385,7 @@ def prov_failure_states(chk: Check) -> None:
         chk.ob('PROV-failure-state', cb, ok2, f'the failure is reported to {recv}, which ' + ('is not cleared by another method of the handle' if recv not in cleared else
                'cancel()/_cleanup() set to None while the callback is being awaited: the report raises AttributeError into the event loop and the user\'s exception is lost'),
                node=ce[0], kind='callback-process-known')
-    ce_f = prog.func('processes.Process.callback_excepted')
-    fl = [c for c in calls_in_func(ce_f, 'fail')]
-    ok = len(fl) == 1 and [norm(a) for a in fl[0].args] == ce_f.params[2:4]
-    chk.ob('PROV-failure-state', ce_f, ok, 'callback_excepted fails the process with that exception', node=fl[0] if fl else None, kind='callback-fails')
+    callback_failure_fails_process(chk, 'PROV-failure-state')
     done = [n for t in ast.walk(cb.node) if isinstance(t, ast.Try) for n in t.finalbody]
     chk.info('PROV-failure-state', f'ProcessCallback.run finally: {[norm(s) for s in done]}')
 
